@@ -219,3 +219,18 @@ package harfbuzz
 //@   assert_at call mergeClusters#1 : [merged-range-covers-the-move] arg1 == j && arg2 == i+1 && j < i
 //@   modifies unspecified
 //@   loop 2 invariant [j-range] j <= i
+//
+// Property C18, GPOS value records: applyGPOSValueRecord reports (its result makes the caller flag the glyphs unsafe
+// to break) every component that moves the glyph: non-zero static placements and advances on the current axis, and
+// device/variation deltas as soon as a ppem or variation coordinates are set.
+//@ func otApplyContext.applyGPOSValueRecord C18
+//@   mode bv
+//@   requires [context] c != nil && c.font != nil && c.font.face != nil && glyphPos != nil
+//@   ensures [static-advance-reported] implies(format&tables.XAdvance != 0 && old(c.direction.isHorizontal()) && v.XAdvance != 0, result) && implies(format&tables.YAdvance != 0 && !old(c.direction.isHorizontal()) && v.YAdvance != 0, result)
+//@   ensures [static-placement-reported] implies(format&tables.XPlacement != 0 && v.XPlacement != 0, result) && implies(format&tables.YPlacement != 0 && v.YPlacement != 0, result)
+//@   ensures [device-advance-reported] implies(format&tables.XAdvDevice != 0 && old(c.direction.isHorizontal()) && (old(c.font.face.xPpem) != 0 || old(len(c.font.face.coords)) != 0) && v.XAdvDevice != nil, result) &&
+//@     | implies(format&tables.YAdvDevice != 0 && !old(c.direction.isHorizontal()) && (old(c.font.face.yPpem) != 0 || old(len(c.font.face.coords)) != 0) && v.YAdvDevice != nil, result)
+//@   ensures [device-placement-reported] implies(format&tables.XPlaDevice != 0 && (old(c.font.face.xPpem) != 0 || old(len(c.font.face.coords)) != 0) && v.XPlaDevice != nil, result) &&
+//@     | implies(format&tables.YPlaDevice != 0 && (old(c.font.face.yPpem) != 0 || old(len(c.font.face.coords)) != 0) && v.YPlaDevice != nil, result)
+//@   ensures [nothing-to-apply] implies(format == 0, !result)
+//@   modifies unspecified
